@@ -153,6 +153,9 @@ type metricInfo struct {
 type state struct {
 	Points  map[pointKey][]float64
 	Metrics map[uint32]*metricInfo
+	// evidence only (observed states): metrics whose lookup was repeated because >= 2 live files
+	// cover the id with their key range / >= 2 level-1 files do
+	RepeatedLookups, CoveredByTwoLevel1Ranges int
 }
 
 func newState() *state {
@@ -490,6 +493,88 @@ func openMetricReaders(snap version.Snapshot, metricID uint32) ([]metricsdata.Me
 	return metricReaders, nil
 }
 
+// lookupRepeats is the number of times the block lookup of a metric is repeated inside one
+// snapshot when more than one live file covers the metric id with its key range. A level hands
+// out its files in the iteration order of a Go map (kv/version/level.go getFiles), so one read
+// sees one of several possible file orders; for the 2..8 files of a small map a given relative
+// order of two files comes up with probability 1/8..7/8 per call. What the reader observes is a
+// function of the SET of blocks the lookup returns, so repeating the (cheap) lookup and comparing
+// the set of files with the one the full observation was made from is equivalent to repeating
+// the whole observation.
+const lookupRepeats = 24
+
+// lookupFiles is the block lookup of the read path alone: Snapshot.FindReaders + table.Reader.Get
+// (tsdb/data_family.go fileFilter); it returns the paths of the files that delivered a block.
+func lookupFiles(snap version.Snapshot, metricID uint32) ([]string, error) {
+	tableReaders, err := snap.FindReaders(metricID)
+	if err != nil {
+		return nil, fmt.Errorf("FindReaders(%d): %w", metricID, err)
+	}
+	var paths []string
+	for _, tr := range tableReaders {
+		if _, err0 := tr.Get(metricID); err0 == nil {
+			paths = append(paths, tr.Path())
+		}
+	}
+	sort.Strings(paths)
+	return paths, nil
+}
+
+// coveringFiles counts the live files of the snapshot's version whose [minKey,maxKey] range
+// covers the metric id (read from the file metas, not through the lookup under test).
+func coveringFiles(snap version.Snapshot, metricID uint32) (all, level1 int) {
+	for level := 0; level < 2; level++ {
+		for _, fm := range snap.GetCurrent().GetFiles(level) {
+			if metricID >= fm.GetMinKey() && metricID <= fm.GetMaxKey() {
+				all++
+				if level == 1 {
+					level1++
+				}
+			}
+		}
+	}
+	return all, level1
+}
+
+// repeatLookups repeats the block lookup of one metric in the same snapshot (see lookupRepeats):
+// every lookup must find the blocks in the same files as the lookup the observation is made
+// from, and Snapshot.Load must deliver as many blocks.
+func repeatLookups(snap version.Snapshot, metricID uint32, first []metricsdata.MetricReader, out *state) error {
+	all, level1 := coveringFiles(snap, metricID)
+	if all < 2 {
+		return nil
+	}
+	out.RepeatedLookups++
+	if level1 >= 2 {
+		out.CoveredByTwoLevel1Ranges++
+	}
+	want := make([]string, 0, len(first))
+	for _, r := range first {
+		want = append(want, r.Path())
+	}
+	sort.Strings(want)
+	for i := 2; i <= lookupRepeats; i++ {
+		got, err := lookupFiles(snap, metricID)
+		if err != nil {
+			return err
+		}
+		if fmt.Sprint(got) != fmt.Sprint(want) {
+			return fmt.Errorf("metric %d: lookup #%d in the same snapshot finds its blocks in files %v, lookup #1 found them in %v "+
+				"(%d live files cover the key with their range, %d of them in level 1): what a reader observes depends on the order in which the level hands out its files",
+				metricID, i, got, want, all, level1)
+		}
+		n := 0
+		if err := snap.Load(metricID, func([]byte) error { n++; return nil }); err != nil {
+			return fmt.Errorf("Snapshot.Load(%d): %w", metricID, err)
+		}
+		if n != len(want) {
+			return fmt.Errorf("metric %d: Snapshot.Load #%d in the same snapshot delivers %d blocks, the lookup the observation was made from found %d (%v; %d live files cover the key, %d in level 1)",
+				metricID, i, n, len(want), want, all, level1)
+		}
+	}
+	return nil
+}
+
 // loadPoints runs one query (field list sorted by id, series bitmap) over the blocks the way the
 // storage side of a query does: NewFilter(...).Filter -> FilterResultSet.Load(ctx) per roaring
 // high key -> DataLoader.Load(ctx) with a DownSampling callback that decodes through
@@ -587,6 +672,9 @@ func observeMetric(snap version.Snapshot, metricID uint32, fields field.Metas, q
 	if err != nil {
 		return err
 	}
+	if err := repeatLookups(snap, metricID, metricReaders, out); err != nil {
+		return err
+	}
 	for _, r := range metricReaders {
 		mi := out.metric(metricID)
 		mi.addRange(r.GetTimeRange())
@@ -661,6 +749,41 @@ type layout struct {
 	FilesPerMetric map[uint32]int
 	// FileLevel maps every live file number to its level.
 	FileLevel map[int64]int
+	// Files lists every live file with its key range (file meta), ascending file number.
+	Files []fileRange
+}
+
+// fileRange is the meta data of one live file.
+type fileRange struct {
+	Number   int64
+	Level    int
+	Min, Max uint32
+}
+
+func (a fileRange) overlaps(b fileRange) bool { return a.Min <= b.Max && b.Min <= a.Max }
+
+// level1 returns the level-1 files.
+func (l *layout) level1() []fileRange {
+	var out []fileRange
+	for _, f := range l.Files {
+		if f.Level == 1 {
+			out = append(out, f)
+		}
+	}
+	return out
+}
+
+// level1RangesOverlap tells whether two level-1 files have intersecting [min,max] key ranges.
+func (l *layout) level1RangesOverlap() bool {
+	up := l.level1()
+	for i := range up {
+		for j := i + 1; j < len(up); j++ {
+			if up[i].overlaps(up[j]) {
+				return true
+			}
+		}
+	}
+	return false
 }
 
 // observeFamily reads the whole family through one snapshot.
@@ -682,8 +805,10 @@ func observeFamily(family kv.Family, metricIDs []uint32, fieldsOf func(uint32) f
 	for level := 0; level < 2; level++ {
 		for _, fm := range snap.GetCurrent().GetFiles(level) {
 			lay.FileLevel[fm.GetFileNumber().Int64()] = level
+			lay.Files = append(lay.Files, fileRange{Number: fm.GetFileNumber().Int64(), Level: level, Min: fm.GetMinKey(), Max: fm.GetMaxKey()})
 		}
 	}
+	sort.Slice(lay.Files, func(i, j int) bool { return lay.Files[i].Number < lay.Files[j].Number })
 	for id, mi := range out.Metrics {
 		lay.FilesPerMetric[id] = mi.Files
 	}
